@@ -24,11 +24,11 @@ CHECKS = {
          "Every literal of the number family (sign x integer digit patterns of length 1..21 incl. the int64/uint64 boundaries x fraction with 0..21 leading zeros x exponent forms), every string of <=2 (quick) / <=3 (thorough) escape items (all 65536 single \\uXXXX escapes, surrogate pairs, raw invalid bytes) as value and key, and every tree up to 5 nodes is parsed by oj.Parse, 1-byte ParseReader, oj.Tokenize, gen.Parser (both) and sen.Parse and compared with the reference value. The space is a matrix of code paths (threshold digit counts, escape cells), filled completely up to the bound. A string-pair family (two strings per document in five placements, the second over every two-item sequence) checks that nothing one string leaves behind in a front-end shows in the next.",
          "Trusted: strconv.ParseFloat, math/big, encoding/json (cross-checked); valref decoder for non-UTF-8 inputs. Lone surrogates and raw invalid bytes accept several readings.",
          "DESIGN.md §3 C02", "core"),
- "C04": (EX, "bounded-exhaustive enumeration of value trees x writer entry points x option products x WriteLimits against encoding/json + an omit accept-set reference; scale family; table columns of which one name begins the others",
+ "C04": (EX, "bounded-exhaustive enumeration of value trees x writer entry points x option products x WriteLimits against encoding/json + an omit accept-set reference; scale family; table columns of which one name begins the others; table cells with an object in one row and an array in the other one level down, depth limits beyond the tables",
          "Every tree up to the node bound over a leaf alphabet with one representative per string/number class (simple and gen form), deep single-child chains and the aligned-table family is written by every JSON writer entry point under the full product of boolean options (+ Width/MaxDepth/Align for pretty) and every WriteLimit; output must be valid JSON, decode to the tree minus exactly the omitted members, be byte-identical when streamed, and sorted/deterministic under Sort. Further families: every string of <=2/3 bytes over nine byte classes as value and key; deep nestings with siblings at every depth x indent around the fixed indentation tables (Sort, Tab).",
          "Trusted: encoding/json as JSON oracle; OmitEmpty read as an accept-set (DESIGN §2.5); map orders repeated, not enumerated.",
          "DESIGN.md §3 C04", "core"),
- "C10": (EX, "bounded-exhaustive enumeration of strings over SEN byte classes + reserved family x 4 contexts x 8 writers x options, round trip through sen.Parse; scale family; table columns of which one name begins the others",
+ "C10": (EX, "bounded-exhaustive enumeration of strings over SEN byte classes + reserved family x 4 contexts x 8 writers x options, round trip through sen.Parse; scale family; table columns of which one name begins the others; table cells with an object in one row and an array in the other one level down, depth limits beyond the tables",
          "All strings of <=2 (quick) / <=3 (thorough) class representatives (classes recomputed from the current SEN tables) plus the reserved family, as top-level value, array element, member value and member key, numbers and small trees, through every SEN writer entry point and option vector; sen.Parse of the text must give back an equal tree (strings stay strings, keys exact).",
          "Trusted: byte-class partition; a fresh sen.Parser per case; numbers by value.",
          "DESIGN.md §3 C10", "core"),
@@ -40,7 +40,7 @@ CHECKS = {
          "Every sequence of <=2 (quick) / <=3 (thorough) fragments x every document x Set/SetOne/Del/DelOne/Remove/RemoveOne/Modify/ModifyOne (and Must variants) x 5 replacement values x 5 modifier functions on simple and gen data: the selection is the pathref reading that agrees with Get on the before-state; afterwards every location outside it is unchanged, every selected location holds the new value / is gone, *One forms change at most one location, Set creates only along child/index paths, impossible requests return errors, nothing panics, simple and gen agree.",
          "Trusted: pathref + scriptref and Get on the before-state; creation cases judged by a weaker oracle; nested selections accepted in any visiting order; failures that are exactly the inclusive slice reading (pathref.Variant.Inclusive) are keyed as that one finding.",
          "DESIGN.md §3 C13", "core"),
- "C12": (EX, "exhaustive operator x operand-kind x operand-kind matrix and bounded logic trees against a three-valued reference evaluator; 2^53 neighbours; chains of three and four many-valued comparisons",
+ "C12": (EX, "exhaustive operator x operand-kind x operand-kind matrix and bounded logic trees against a three-valued reference evaluator; 2^53 neighbours; chains of three and four many-valued comparisons; an alternation among the patterns",
          "Every operator x left operand x right operand (constants and @-paths, simple and gen data, missing / single / multi-valued paths), built through the constructors and by parsing the text, plus every &&/||/! tree up to depth 2 (quick) / 3 (thorough) on an element corpus; result must equal the reference, never panic, and Script.Match must equal filter membership.",
          "Trusted: scriptref (answers 'any' where the documentation leaves the result open); operator list read from the code.",
          "DESIGN.md §3 C12", "core"),
@@ -48,11 +48,11 @@ CHECKS = {
          "Every expression of <=2 (quick) / <=3 (thorough) fragments over a key alphabet with quotes, backslashes, control and non-ASCII characters, and every equation tree up to depth 2/3 over all operator pairs and constant kinds: String()/BracketString() must parse, print identically again and evaluate identically on tailored data; scripts must Match identically on a corpus in which every leaf takes two values.",
          "Trusted: ojg's own Get/Match on both sides (differential, no reference evaluator); smaller-witness subsumption for attribution.",
          "DESIGN.md §3 C14", "core"),
- "C15": (EX, "bounded-exhaustive enumeration of reflect.StructOf types x values x option products x encoders against a reference encoder and encoding/json; BFS over plan-cache first-use orders; oj.Write repeated with WriteLimit 1 and 7; embedded pointer to a zero struct",
+ "C15": (EX, "bounded-exhaustive enumeration of reflect.StructOf types x values x option products x encoders against a reference encoder and encoding/json; BFS over plan-cache first-use orders; oj.Write repeated with WriteLimit 1 and 7; embedded pointer to a zero struct; slices and maps of pointers with nil elements; one-field types over map[int]int and map[string]string; discrepancies inside a container say what is wrong inside",
          "Every struct type of <=2 (quick) / <=3 thinned (thorough) fields over 22 field kinds x 6 tag classes x values x the option product is encoded by all encoder entry points; all outputs must denote one tree, equal to the reference encoder (option documentation) and to encoding/json under GoOptions; the cache-history leg explores every first-use order of (type, OmitEmpty, package) from empty caches. Every one-field type is also written through a pointer to a pointer and must give the tree written for the pointer.",
          "Trusted: encref (cross-checked against encoding/json on every case); readings weakened where options.go is silent (see checks/c15/TRIAGE.md).",
          "DESIGN.md §3 C15", "core"),
- "C16": (MC, "explicit-state BFS over recomposer registry states (orders of target types) with each step compared against a fresh recomposer; bounded-exhaustive round trips over StructOf and named types; field names of every length and casing; anonymous struct types that agree in a long prefix of their printed form",
+ "C16": (MC, "explicit-state BFS over recomposer registry states (orders of target types) with each step compared against a fresh recomposer; bounded-exhaustive round trips over StructOf and named types; field names of every length and casing; anonymous struct types that agree in a long prefix of their printed form; slices and maps of pointers with nil elements; a named bool, integers beyond 2^53 and fields that differ in case among the named cases",
          "History leg: state = registry content of one recomposer (private and alt.DefaultRecomposer), alphabet = recompose into each of 9 target type classes (same-named types of two packages, anonymous structs, same-named types declared inside two functions, embedding/field-of types, custom function); BFS over all orders up to length 3/4 with deduplication; every step's output must equal the output on a fresh recomposer. Value leg: Recompose(Decompose(v)), Unmarshal(Marshal(v)), sen round trip for every enumerated type and value.",
          "Trusted: reflect.DeepEqual modulo nil/empty; registry snapshot via reflection; process-wide state also contaminates the fresh run (stated).",
          "DESIGN.md §3 C16", "core"),
@@ -68,7 +68,7 @@ CHECKS = {
          "Every base tree, every catalogue perturbation at every location (and pairs), every ignore set derived from the perturbed locations (covers / ancestor / sibling / wildcard / below, singles and pairs, both argument orders) through Diff, Compare and Match on simple and gen trees; missed / spurious / wrong-index / compare-inconsistent are judged by diffref under the three-valued scalar relation.",
          "Trusted: diffref; int-vs-float of the same value and instants <2ms apart are open; array tail reading of DESIGN §2.5.",
          "DESIGN.md §3 C19", "core"),
- "C20": (EX, "bounded-exhaustive enumeration of plans (function x arity x argument atoms, nesting depth 1/2, state-changing sequences) x 12 roots against an outcome-set reference; a used plan against a plan compiled just now on every root (history oracle); paths built from data; 2^53 neighbours",
+ "C20": (EX, "bounded-exhaustive enumeration of plans (function x arity x argument atoms, nesting depth 1/2, state-changing sequences) x 12 roots against an outcome-set reference; a used plan against a plan compiled just now on every root (history oracle); paths built from data; 2^53 neighbours; one list appended to twice among the step sequences",
          "Every function of asm.FnDocs() (read at run time) x arity 0..4 x argument atoms (+ depth-2 templates in thorough) on 12 roots: Execute never panics, two executions agree, the result is in the reference's outcome set for 37 modelled functions, String()/Simplify() rebuild an equivalent plan, and $.src is untouched unless a documented mutator targets it. Further legs: item independence of each, bodies evaluated with @ bound to a value that is not the root (against the reference), and functions documented to return a copy sharing no storage with their argument.",
          "Trusted: asmref (doc.go is the specification; ambiguous wording yields several acceptable outcomes); masked 'runtime error:' results accepted.",
          "DESIGN.md §3 C20", "core"),
@@ -81,11 +81,11 @@ CHECKS = {
          "Every sequence of <=2 (quick) / <=3 (thorough) fragments over an alphabet that puts every index / slice bound in every sign and magnitude relation to the array lengths of the corpus (12 indexes, 392 start x end x step slices, unions, wildcard, descent, 5 filters decided by the scriptref reference) is evaluated by Expr.Get on every document of the corpus and compared with pathref (sequence where order is defined, multiset otherwise); position independence Get(x.f.c) = union of Get(c) over Get(x.f) is checked on the implementation itself. A path ending in a bare descent must return, as a multiset, every node below the start nodes exactly once.",
          "Trusted: pathref + scriptref; open readings enumerated as pathref.Variants; trailing bare descent only no-panic/determinism; map orders repeated.",
          "DESIGN.md §3 C05", "core"),
- "C06": (MC, "explicit-state BFS over all six byte machines (256 bytes per state, reader faults injected at every chunk boundary) + bounded-exhaustive token-sequence / plan / tree enumeration for the recursive parsers; scale family, every cut of it and the refill sweep under recover",
+ "C06": (MC, "explicit-state BFS over all six byte machines (256 bytes per state, reader faults injected at every chunk boundary) + bounded-exhaustive token-sequence / plan / tree enumeration for the recursive parsers; scale family, every cut of it and the refill sweep under recover; proc fragments behind every kind of earlier fragment",
          "Leg A visits every reachable abstract state of each of the six byte state machines (single- and multi-document) up to the nesting bound and executes all 256 byte values, end of input and one injected reader fault per chunk boundary through the reader and []byte entry points, under recover. Legs B-D enumerate every token sequence up to the length bound into the JSONPath/script parsers, every asm function x arity x argument-kind vector, and every small tree into Unmarshal/Recompose for 26 target types. A panic anywhere is a violation with the input as witness; hangs are caught by the worker watchdog.",
          "Trusted: abstract state key (merged states behave alike for control flow), the token / argument / target alphabets; DESIGN.md §2.5 reading of 'runtime fault' (masked 'runtime error:' error results are counted, not violations).",
          "DESIGN.md §3 C06", "bytemc"),
- "C07": (MC, "exhaustive depth-bounded search over call histories of one long-lived instance, every call re-executed on a fresh instance (two initial states for the parsers; returned values and returned errors held on to); culprit field localised by single-field transplant; documents past the initial capacities (9 members, 18 levels, 47-byte escaped string)",
+ "C07": (MC, "exhaustive depth-bounded search over call histories of one long-lived instance, every call re-executed on a fresh instance (two initial states for the parsers; returned values and returned errors held on to); culprit field localised by single-field transplant; documents past the initial capacities (9 members, 18 levels, 47-byte escaped string); a token function that keeps its arguments",
          "The reused instance (9 instance kinds + the pooled package-level functions of oj and sen) is the state machine and API calls are the alphabet (valid documents, documents aborting in every family of modes, failing readers/writers, option and callback variants, Reuse/OnlyOne/Options changes). Every sequence up to the depth bound is executed; the last call's result (value, error text with line:column, bytes written) must equal the result on a fresh instance with the same exported configuration; earlier returned values are re-inspected after every call and input buffers are overwritten after use. A difference is attributed to the private field whose transplant into a fresh instance reproduces it.",
          "Trusted: the call alphabets; exported configuration fields count as arguments; documented reused buffers (MustJSON, MustSEN, sen.Bytes, pretty Encode) and Reuse maps are exempt; sync.Pool is emptied by two GC cycles.",
          "DESIGN.md §3 C07", "core"),
